@@ -165,7 +165,7 @@ func verifHelperClient(fault string, log *verifHelperLog) int {
 				log.emit(map[string]any{"e": "Send", "name": req.TestName, "addr": int(req.Port),
 					"inst": verifInst(int(req.Protocol), int(req.HttpVersion), len(req.ServerTlsCert) > 0, req.ClientTlsCreds != nil),
 					"probe": probe, "hdr": len(nameHdr) == 1 && nameHdr[0] == req.TestName,
-					"cert": fmt.Sprintf("%x", sha256.Sum256(req.ServerTlsCert))[:12],
+					"cert": fmt.Sprintf("%x", sha256.Sum256(req.ServerTlsCert))[:12], "host": req.Host,
 					"codec": int(req.Codec), "compression": int(req.Compression)})
 			}
 			if err := internal.WriteDelimitedMessage(inW, &req); err != nil {
@@ -289,7 +289,12 @@ func verifHelperServer(fault string, log *verifHelperLog) int {
 			return
 		}
 		addr := int(resp.Port)
-		log.emit(map[string]any{"e": "Up", "addr": addr, "pid": pid, "cert": fmt.Sprintf("%x", sha256.Sum256(resp.PemCert))[:12], "inst": inst})
+		if !req.UseTls && pid%3 == 0 && (resp.Host == "" || resp.Host == "127.0.0.1") {
+			// "the host where the server is running": a server may name its host instead of giving an address
+			resp.Host = "localhost"
+		}
+		log.emit(map[string]any{"e": "Up", "addr": addr, "pid": pid, "cert": fmt.Sprintf("%x", sha256.Sum256(resp.PemCert))[:12], "inst": inst,
+			"host": resp.Host})
 		_ = internal.WriteDelimitedMessage(os.Stdout, &resp)
 		<-sigs
 		log.emit(map[string]any{"e": "Stop", "pid": pid, "addr": addr})
